@@ -276,7 +276,10 @@ impl<'p> Gen<'p> {
             for _ in 0..self.rng.range(2, 3) {
                 let kind = *self.rng.pick(&[CollKind::Boxed, CollKind::Ref, CollKind::Ref, CollKind::Retry]);
                 let poison = kind != CollKind::Ref && self.rng.chance(self.p.poison_coll_pct, 100);
-                w.targets.push(TSpec::OnData { data: d, kind, from: kind == CollKind::Ref && self.rng.chance(1, 3), poison });
+                {
+                    let unchecked = self.rng.chance(1, 5);
+                    w.targets.push(TSpec::OnData { data: d, kind, from: !unchecked && kind == CollKind::Ref && self.rng.chance(1, 3), poison, unchecked });
+                }
             }
         }
         let all = Self::elems_of(w);
@@ -796,7 +799,10 @@ pub fn gen_c08(seed: u64) -> Scenario {
     for d in 0..w.datas.len() {
         for _ in 0..g.rng.range(2, 3) {
             let kind = *g.rng.pick(&[CollKind::Boxed, CollKind::Ref, CollKind::Ref]);
-            w.targets.push(TSpec::OnData { data: d, kind, from: kind == CollKind::Ref && g.rng.chance(1, 3), poison: false });
+            {
+                let unchecked = g.rng.chance(1, 5);
+                w.targets.push(TSpec::OnData { data: d, kind, from: !unchecked && kind == CollKind::Ref && g.rng.chance(1, 3), poison: false, unchecked });
+            }
         }
     }
     let nthreads = g.rng.range(1, 2);
@@ -857,7 +863,7 @@ pub fn gen_quiescent(seed: u64, nonacq: bool) -> Scenario {
     for d in 0..w.datas.len() {
         let kind = *g.rng.pick(&[CollKind::Boxed, CollKind::Ref, CollKind::Retry]);
         // keep tester targets contiguous at the front
-        w.targets.insert(nt, TSpec::OnData { data: d, kind, from: false, poison: false });
+        w.targets.insert(nt, TSpec::OnData { data: d, kind, from: false, poison: false, unchecked: false });
         nt += 1;
     }
     // holders: one per held element
@@ -993,7 +999,7 @@ pub fn gen_c12(seed: u64) -> Scenario {
     }
     for d in 0..w.datas.len() {
         let kind = *g.rng.pick(&[CollKind::Boxed, CollKind::Ref, CollKind::Retry]);
-        w.targets.push(TSpec::OnData { data: d, kind, from: false, poison: kind != CollKind::Ref && g.rng.chance(1, 8) });
+        w.targets.push(TSpec::OnData { data: d, kind, from: false, poison: kind != CollKind::Ref && g.rng.chance(1, 8), unchecked: g.rng.chance(1, 6) });
         nt += 1;
     }
     let mut main_steps = Vec::new();
